@@ -75,8 +75,19 @@ def check_g4(pid, tier):
         from . import g7
 
         fpts = [g7.FPoint(m, mode, False, fs) for m in ("orjson", "msgpack", "toml") for mode in ("eager", "lazy", "postponed") for fs in ("native", "native2")]
+        fpts += [g7.FPoint(m, mode, False, "selfref") for m in ("orjson", "msgpack", "toml") for mode in ("eager", "lazy")]
         results += runner.run_pool(g7.g7_task, [(pid, p) for p in fpts], chunks=1)
     obs, crashes, trusted = _collect(results)
+    if pid == "C03":
+        try:
+            from . import s6key
+
+            obs += s6key.all_obligations(pid)
+            trusted.add("A-names: type_name with default flags is injective on importable classes; md5 does not collide (S6)")
+        except Exception as e:  # noqa
+            import traceback
+
+            crashes.append(f"S6: {type(e).__name__}: {e}\n{traceback.format_exc()[-600:]}")
     what = "REF_ENC" if pid == "C02" else "REF_DEC"
     return runner.finish(
         pid, tier, obs, t0,
@@ -203,6 +214,28 @@ def check_g7(pid, tier):
     extra = []
     if pid in g7.EXTRA:
         extra = g7.EXTRA[pid](pid, tier)
+    if pid == "C13":
+        # dialect=D on a class with flag parameters: the default unit's dialect branch composed with the unit
+        # compiled for D must equal the twin class whose default dialect is D (PROJECT, keyword > call dialect > config)
+        import itertools
+
+        from . import g2
+
+        pts2 = []
+        for opt in ("omit_none", "serialize_by_alias", "omit_default"):
+            for vc, vg in itertools.product((False, True), (None, False, True)):
+                o = (("call", opt, vc),) + ((("cfg", opt, vg),) if vg is not None else ())
+                for flags in (("D", "N"), ("B", "D"), ("B", "D", "N")):
+                    pts2.append(g2.PPoint(g2.FS_A, o, False, flags, "mixin"))
+        for r in runner.run_pool(g2.g2_task, [(pid, p) for p in pts2], chunks=2):
+            if "crash" in r:
+                extra.append(dict(id=f"{pid}.G2/crash", status="error", detail=r["crash"] + " @ " + r["payload"] + r["trace"][-400:]))
+            else:
+                extra += [o for o in r["obligations"] if "/dispatch" in o["id"]]
+    if pid == "C14":
+        from . import s6key
+
+        extra = extra + s6key.all_obligations(pid)  # specialisations keyed by a hash of type arguments: order independence needs an injective key
     obs, crashes, trusted = _collect(res)
     obs += extra
     return runner.finish(
